@@ -72,4 +72,20 @@ var props = map[string]*propConfig{
 		},
 		Probes: []string{"clock-jump"},
 	},
+	"C04": {
+		Harness: "h1", Level: "exploration",
+		Families: []family{
+			{Name: "kills", Flags: map[string]string{"family": "kills"}, Quick: 2400, Thorough: 400000},
+		},
+		QuickBudget: 90 * time.Second, ThoroughBudget: 25 * time.Minute, Chunk: 50,
+		Rule: "one run = 2..4 simulated processes (independent counter.file objects and mappings of one shared file, 1..2 threads each) incrementing names drawn from a pool with same-name, same-bucket (colliding), page-crossing and page-end-sized names, scheduled at single-atomic-operation granularity, with 0..3 kills placed at a random step or right after the victim's k-th limit CAS / head CAS / record write / extension write / mmap; the file is strictly decoded by an independent decoder after every step; distinct = distinct event-log hash; non-trivial = at least one context switch between live tasks or a kill",
+		Real: []string{"internal/counter", "internal/mmap", "internal/telemetry", "Linux tmpfs, mmap(MAP_SHARED) coherence between several mappings in one address space", "real munmap in half of the runs"},
+		Stub: []string{"processes are simulated: one address space, one counter.file object per process; kill = never scheduled again, nothing unwound", "Go scheduler", "wall clock"},
+		Assumptions: []string{
+			"a process crash is modelled as SIGKILL at a scheduling point: what the page cache holds is what other processes see; power loss is out of scope",
+			"scheduling points as in C03; sequentially consistent memory",
+			"sampling, not enumeration",
+		},
+		Probes: []string{"kill:step", "kill:CompareAndSwap @file.go", "kill:fs:writeat"},
+	},
 }
